@@ -6,6 +6,7 @@ import (
 	"math/rand"
 	"strings"
 	"sync"
+	"time"
 
 	"verifharness/client"
 	"verifharness/core"
@@ -172,10 +173,85 @@ func runLocks(r *core.Run, kind string) {
 		}()
 	}
 	wg.Wait()
+	lockLocktimeCrossing(r, kind)
 	lockMintLevel(r, kind, id)
 	if r.Violations() < 10 {
 		lockWalletLevel(r, kind)
 	}
+}
+
+// lockLocktimeCrossing: locks whose locktime passes while the process is running (the configurations of
+// the function-level stage lie 10^6 s in the past or in the future). Each lock is looked at right after
+// it was made (three seconds before its locktime) and again two seconds after the locktime, with the
+// witnesses that are the canonical spends on either side: the lock key (the preimage), a refund key, none.
+func lockLocktimeCrossing(r *core.Run, kind string) {
+	tag := "fn-crossing/" + kind
+	if !r.Want(tag) {
+		return
+	}
+	rng := r.Rng(tag)
+	lk := newLockKeys(rng)
+	lt := time.Now().Unix() + 3
+	type lc struct {
+		name string
+		cfg  lockCfg
+	}
+	data := pubHex(lk.Lock)
+	if kind == "HTLC" {
+		data = lk.Hash
+	}
+	cases := []lc{
+		{"no-refund-key", lockCfg{Kind: kind, Data: data, NSigs: -1, Locktime: lt, Nonce: client.RandHex(rng, 16)}},
+		{"refund-key", lockCfg{Kind: kind, Data: data, NSigs: -1, Locktime: lt, Refund: []string{pubHex(lk.Refund[0])}, Nonce: client.RandHex(rng, 16)}},
+	}
+	type wc struct {
+		name  string
+		specs []sigSpec
+		pre   bool
+		raw   string
+	}
+	wits := []wc{{"lock-key", []sigSpec{{key: lk.Lock}}, true, ""}, {"refund-key", []sigSpec{{key: lk.Refund[0]}}, false, ""}, {"none", nil, false, "-"}}
+	look := func(phase string) {
+		for _, c := range cases {
+			secret := c.cfg.Secret()
+			for _, w := range wits {
+				witness := ""
+				if w.raw == "" {
+					var pre *string
+					if kind == "HTLC" && w.pre {
+						pre = &lk.Preimage
+					}
+					witness = buildWitness([]byte(secret), w.specs, pre, false)
+				}
+				p := cashu.Proof{Amount: 1, Id: "00", Secret: secret, C: "02", Witness: witness}
+				sig := fmt.Sprintf("%s/%s/%s/%s", tag, c.name, phase, w.name)
+				var accepted bool
+				var detail string
+				if pn := core.Guard(func() { accepted, detail = lockVerify(kind, p) }); pn != "" {
+					r.Violate("panic:verify:crossing", pn, sig, p)
+					continue
+				}
+				auth := authorisedInput(c.cfg, secret, witness)
+				if c.cfg.expired() != (phase == "after") {
+					r.Inconclusive("locktime crossing: the machine was too slow for the three-second window")
+					continue
+				}
+				r.Eval(sig, true)
+				r.Count("locktime_crossing_verdicts", 1)
+				if accepted && !auth {
+					r.Violate(fmt.Sprintf("function:accepted-unauthorised:locktime-crossing:%s:%s:%s", c.name, phase, w.name), fmt.Sprintf("%s the locktime of a lock made three seconds before it, a witness of class %s is accepted although the statement's conditions are not met", phase, w.name), sig, map[string]any{"config": c.cfg.Desc(), "witness": witness})
+				}
+				if !accepted && auth {
+					r.Violate(fmt.Sprintf("function:rejected-authorised:locktime-crossing:%s:%s:%s", c.name, phase, w.name), fmt.Sprintf("%s the locktime of a lock made three seconds before it, the canonical witness of class %s is refused: %s", phase, w.name, detail), sig, map[string]any{"config": c.cfg.Desc(), "witness": witness})
+				}
+			}
+		}
+	}
+	look("before")
+	if d := time.Until(time.Unix(lt+2, 0)); d > 0 {
+		time.Sleep(d)
+	}
+	look("after")
 }
 
 func lockFunctionLevel(r *core.Run, kind string, rep int) {
@@ -243,7 +319,12 @@ func lockFunctionLevel(r *core.Run, kind string, rep int) {
 						r.Violate(key, fmt.Sprintf("%s accepts a witness of class %q although the statement's conditions are not met", map[string]string{"P2PK": "VerifyP2PKLockedProof", "HTLC": "VerifyHTLCProof"}[kind], class), sig,
 							map[string]any{"config": c.Desc(), "secret": secret, "witness": witness})
 					}
-					if !accepted && auth {
+					if !accepted && auth && c.expired() && len(c.Refund) == 0 && hc == "ok" {
+						// after the locktime only the refund rule applies, and with no refund key anyone may spend:
+						// whatever the witness is, also none at all
+						r.Violate("function:rejected-after-locktime-without-refund-key:"+class, fmt.Sprintf("%s refuses a witness of class %q for a lock whose locktime has passed and that names no refund key (%s)", map[string]string{"P2PK": "VerifyP2PKLockedProof", "HTLC": "VerifyHTLCProof"}[kind], class, detail), sig,
+							map[string]any{"config": c.Desc(), "secret": secret, "witness": witness})
+					} else if !accepted && auth {
 						r.Observe("function:rejected-although-authorised:"+class, cfgShape(c)+": "+detail)
 					}
 					if ci%97 == 0 && class == "threshold-distinct" && pc == "right" {
